@@ -174,7 +174,7 @@ class GlobalRngSentinel:
     @staticmethod
     def seed_all(seed):
         np.random.seed(seed % (2 ** 32))
-        torch.manual_seed(seed)
+        torch.default_generator.manual_seed(seed)  # torch.manual_seed also queues CUDA/XPU seeding (~1 ms per call)
         pyrandom.seed(seed)
 
     @staticmethod
